@@ -84,6 +84,36 @@ fn check_order(g: &Graph, starts: &[usize], order: &[usize]) -> Result<(), Strin
     }
     Ok(())
 }
+/// For orderings that are only observable through a side channel (the order of imported cells,
+/// the order of the instance list after placement) the dependency order itself is not asserted:
+/// a wrong internal order shows up as an error on an acyclic graph (a dependency was not ready).
+fn judge_membership(g: &Graph, starts: &[usize], result: Result<Vec<usize>, String>, what: &str) -> Result<(), String> {
+    let reach = reachable(g, starts);
+    let cyclic = has_cycle(g, &reach);
+    match (cyclic, result) {
+        (true, Ok(o)) => Err(format!("{}: graph {:?} (starts {:?}) has a cycle but the call succeeded ({:?}) instead of returning an error", what, g, starts, o)),
+        (true, Err(_)) => Ok(()),
+        (false, Err(e)) => Err(format!("{}: acyclic graph {:?} (starts {:?}) was refused: {}", what, g, starts, e)),
+        (false, Ok(o)) => {
+            let mut seen = vec![0usize; g.len()];
+            for &n in &o {
+                if n >= g.len() {
+                    return Err(format!("{}: unknown item {} in {:?}", what, n, o));
+                }
+                seen[n] += 1;
+            }
+            for n in 0..g.len() {
+                if reach[n] && seen[n] != 1 {
+                    return Err(format!("{}: graph {:?} starts {:?} result {:?}: reachable item {} appears {} times", what, g, starts, o, n, seen[n]));
+                }
+                if !reach[n] && seen[n] != 0 {
+                    return Err(format!("{}: graph {:?} starts {:?} result {:?}: unreachable item {} appears", what, g, starts, o, n));
+                }
+            }
+            Ok(())
+        }
+    }
+}
 fn judge(g: &Graph, starts: &[usize], result: Result<Vec<usize>, String>, what: &str) -> Result<(), String> {
     let reach = reachable(g, starts);
     let cyclic = has_cycle(g, &reach);
@@ -350,7 +380,7 @@ fn gds_case(src: &mut Src, ctx: &mut Ctx) -> Result<(), String> {
         Err(e) => Err(format!("{:?}", e)),
         Ok(rl) => rl.cells.iter().map(|p| index_of(&p.read().unwrap().name)).collect(),
     };
-    judge(&g, &listing, res, "GDSII import order (Library::from_gds)")
+    judge_membership(&g, &listing, res, "GDSII import (Library::from_gds)")
 }
 
 fn tetris_lib(g: &Graph, listing: &[usize]) -> tet::library::Library {
@@ -441,7 +471,7 @@ fn place_case(src: &mut Src, ctx: &mut Ctx) -> Result<(), String> {
             cell.layout.as_ref().unwrap().instances.iter().map(|p| index_of(&p.read().unwrap().inst_name)).collect()
         }
     };
-    judge(&g, &listing, res, "placement order (Placer::place)")
+    judge_membership(&g, &listing, res, "placement (Placer::place)")
 }
 
 fn run(run: &mut Run) {
@@ -456,8 +486,8 @@ fn run(run: &mut Run) {
         Tier::Thorough => run.enumerate("generic-n5", 1 << 20, &five_case),
         Tier::Quick => run.explore("generic-n5-sampled", 100_000, 4, &five_sampled),
     }
-    run.explore("generic-random", run.tier.pick(20_000, 300_000), 1500, &random_generic_case);
-    let (nq, nt) = (6_000, 100_000);
+    run.explore("generic-random", run.tier.pick(60_000, 500_000), 1500, &random_generic_case);
+    let (nq, nt) = (40_000, 300_000);
     run.explore("raw-cells", run.tier.pick(nq, nt), 900, &raw_case);
     run.explore("gds-structs", run.tier.pick(nq, nt), 900, &gds_case);
     run.explore("tetris-cells", run.tier.pick(nq, nt), 900, &tetris_case);
